@@ -3,6 +3,7 @@ CONSTANTS
   Objects <- ObjectsDef
   Arrays <- ArraysDef
   Keys <- KeysDef
+  LongKeys <- LongKeysDef
   Numbers <- NumbersDef
 INVARIANT FindConsistent
 INVARIANT FilterSubsequence
